@@ -149,8 +149,13 @@ def formula(e, aliases, blocals, depth=0):
         if e["op"] == "&&":
             return (lambda a: f1(a) and f2(a)), s1 | s2
         return (lambda a: f1(a) or f2(a)), s1 | s2
-    if k in ("cast",):
+    if k in ("cast", "paren"):
         return formula(e["e"], aliases, blocals, depth)
+    if k == "cond":         # c ? a : b
+        fc, sc = formula(e["c"], aliases, blocals, depth)
+        fa, sa = formula(e["a"], aliases, blocals, depth)
+        fb, sb = formula(e["b"], aliases, blocals, depth)
+        return (lambda a: fa(a) if fc(a) else fb(a)), sc | sa | sb
     if k == "construct" and len(e.get("args", [])) == 1:
         return formula(e["args"][0], aliases, blocals, depth)
     if k == "ref" and e.get("id") in blocals and depth < 6:
